@@ -350,4 +350,219 @@ theorem safeSplit_sound (a b : Bytes) (h : safeSplit a b = true) : lexChunks [a,
         | true => rfl
         | false => rw [lex_bol_irrelevant _ b hpk]
 
+
+/-! ## the converse: a cut that does not matter is a safe split -/
+
+def goodCode : Option Nat → Bool
+  | none => true
+  | some k => 256 ≤ k
+
+theorem rule_codes_good (st : St) : (rulesOf st).all (fun r => goodCode r.code) = true := by
+  cases st <;> decide
+
+theorem pick_code_good (rules : List Rule) (h : rules.all (fun r => goodCode r.code) = true) (bol : Bool) (s : Bytes) :
+    goodCode (pick rules bol s).1 = true := by
+  induction rules with
+  | nil => rfl
+  | cons r rs ih =>
+    simp only [List.all_cons, Bool.and_eq_true] at h
+    simp only [pick]
+    split
+    · exact h.1
+    · exact ih h.2
+
+/-- With a non-NUL first byte a match is returned as exactly one token. -/
+theorem emit_single (code : Option Nat) (c : UInt8) (t : Bytes) (hc : c ≠ 0) : ∃ T, emit code (c :: t) = [T] := by
+  cases code with
+  | some k => exact ⟨⟨k, c :: t⟩, rfl⟩
+  | none =>
+    have : (c == 0) = false := by simpa using hc
+    exact ⟨⟨c.toNat, c :: t⟩, by simp [emit, this]⟩
+
+theorem emit_inj (c1 c2 : Option Nat) (x : UInt8) (t1 t2 : Bytes) (hx : x ≠ 0) (g1 : goodCode c1 = true) (g2 : goodCode c2 = true)
+    (h : emit c1 (x :: t1) = emit c2 (x :: t2)) : c1 = c2 ∧ t1 = t2 := by
+  have hx0 : (x == 0) = false := by simpa using hx
+  have hlt : x.toNat < 256 := x.toNat_lt
+  cases c1 with
+  | some k1 =>
+    cases c2 with
+    | some k2 =>
+      simp only [emit, List.cons.injEq, Tok.mk.injEq, and_true] at h
+      exact ⟨by rw [h.1], h.2.2⟩
+    | none =>
+      simp only [emit, hx0, Bool.false_eq_true, if_false, List.cons.injEq, Tok.mk.injEq, and_true] at h
+      simp only [goodCode, decide_eq_true_eq] at g1
+      omega
+  | none =>
+    cases c2 with
+    | some k2 =>
+      simp only [emit, hx0, Bool.false_eq_true, if_false, List.cons.injEq, Tok.mk.injEq, and_true] at h
+      simp only [goodCode, decide_eq_true_eq] at g2
+      omega
+    | none =>
+      simp only [emit, hx0, Bool.false_eq_true, if_false, List.cons.injEq, Tok.mk.injEq, and_true] at h
+      exact ⟨rfl, h.2.2⟩
+
+theorem take_cons_pos (n : Nat) (c : UInt8) (t : Bytes) (h : 0 < n) : (c :: t).take n = c :: t.take (n - 1) := by
+  cases n with
+  | zero => omega
+  | succ k => simp
+
+/-- Two rule choices of one start condition that are returned as the same token are the same choice. -/
+theorem tok_inj (st : St) (bol1 bol2 : Bool) (c : UInt8) (s1 s2 : Bytes) (hc : c ≠ 0)
+    (h : emit (pick (rulesOf st) bol1 (c :: s1)).1 ((c :: s1).take (pick (rulesOf st) bol1 (c :: s1)).2) =
+         emit (pick (rulesOf st) bol2 (c :: s2)).1 ((c :: s2).take (pick (rulesOf st) bol2 (c :: s2)).2)) :
+    pick (rulesOf st) bol1 (c :: s1) = pick (rulesOf st) bol2 (c :: s2) := by
+  have p1 := pick_pos (rulesOf st) (rulesOf_hasAny st) bol1 c s1
+  have p2 := pick_pos (rulesOf st) (rulesOf_hasAny st) bol2 c s2
+  have l1 := pick_le (rulesOf st) bol1 (c :: s1)
+  have l2 := pick_le (rulesOf st) bol2 (c :: s2)
+  have g1 := pick_code_good (rulesOf st) (rule_codes_good st) bol1 (c :: s1)
+  have g2 := pick_code_good (rulesOf st) (rule_codes_good st) bol2 (c :: s2)
+  generalize pick (rulesOf st) bol1 (c :: s1) = m1 at *
+  generalize pick (rulesOf st) bol2 (c :: s2) = m2 at *
+  rw [take_cons_pos _ _ _ (by omega), take_cons_pos _ _ _ (by omega)] at h
+  obtain ⟨hcode, htext⟩ := emit_inj _ _ c _ _ hc g1 g2 h
+  have hlen := congrArg List.length htext
+  simp only [List.length_take, List.length_cons] at hlen l1 l2
+  have : m1.2 = m2.2 := by omega
+  exact Prod.ext hcode this
+
+theorem noNul_cons (c : UInt8) (t : Bytes) (h : noNul (c :: t) = true) : c ≠ 0 ∧ noNul t = true := by
+  simp only [noNul, List.all_cons, Bool.and_eq_true] at h
+  exact ⟨by simpa using h.1, by simpa [noNul] using h.2⟩
+
+theorem noNul_drop (s : Bytes) (n : Nat) (h : noNul s = true) : noNul (s.drop n) = true := by
+  simp only [noNul, List.all_eq_true] at h ⊢
+  intro x hx
+  exact h x (List.mem_of_mem_drop hx)
+
+/-- When `noCross` fails, the whole-text scan of `r ++ b` cannot begin with the tokens of `r` alone. -/
+theorem lex_append_conv (b : Bytes) : ∀ (k : Nat) (r : Bytes), r.length ≤ k → noNul r = true → ∀ (st : St) (bol : Bool) (X : List Tok),
+    noCross b k st bol r = false → (lex st bol (r ++ b)).1 ≠ (lex st bol r).1 ++ X := by
+  intro k
+  induction k with
+  | zero =>
+    intro r hr _ st bol X hnc
+    simp [noCross] at hnc
+  | succ k ih =>
+    intro r hr hnn st bol X hnc
+    cases r with
+    | nil => simp [noCross] at hnc
+    | cons c t =>
+      obtain ⟨hc0, hnt⟩ := noNul_cons c t hnn
+      have h1 := pick_pos (rulesOf st) (rulesOf_hasAny st) bol c t
+      have h1' := pick_pos (rulesOf st) (rulesOf_hasAny st) bol c (t ++ b)
+      have h2 := pick_le (rulesOf st) bol (c :: t)
+      intro heq
+      simp only [List.cons_append] at heq
+      rw [lex_cons st bol c (t ++ b), lex_cons st bol c t] at heq
+      have hm0 : ¬ (pick (rulesOf st) bol (c :: t)).2 = 0 := by omega
+      have hm0' : ¬ (pick (rulesOf st) bol (c :: (t ++ b))).2 = 0 := by omega
+      simp only [hm0, hm0', if_false] at heq
+      have ⟨T', hT'⟩ : ∃ T', emit (pick (rulesOf st) bol (c :: (t ++ b))).1
+          ((c :: (t ++ b)).take (pick (rulesOf st) bol (c :: (t ++ b))).2) = [T'] := by
+        rw [take_cons_pos _ c (t ++ b) (by omega)]; exact emit_single _ c _ hc0
+      have ⟨T, hT⟩ : ∃ T, emit (pick (rulesOf st) bol (c :: t)).1 ((c :: t).take (pick (rulesOf st) bol (c :: t)).2) = [T] := by
+        rw [take_cons_pos _ c t (by omega)]; exact emit_single _ c _ hc0
+      have heq2 := heq
+      rw [hT', hT] at heq2
+      simp only [List.cons_append, List.nil_append, List.cons.injEq] at heq2
+      obtain ⟨hTT, hrest⟩ := heq2
+      -- the first tokens are equal, hence the rule choices are
+      have hpick : pick (rulesOf st) bol (c :: (t ++ b)) = pick (rulesOf st) bol (c :: t) := by
+        apply tok_inj st bol bol c (t ++ b) t hc0
+        rw [hT', hT, hTT]
+      simp only [noCross, List.cons_append, hpick, beq_self_eq_true, Bool.true_and, Bool.or_eq_false_iff] at hnc
+      obtain ⟨_, hnc'⟩ := hnc
+      rw [hpick] at hrest
+      generalize hm : pick (rulesOf st) bol (c :: t) = m at h1 h2 hrest hnc'
+      have e3 : (c :: (t ++ b)).drop m.2 = (c :: t).drop m.2 ++ b := by
+        rw [← List.cons_append, List.drop_append_of_le_length h2]
+      have e1 : (c :: (t ++ b)).take m.2 = (c :: t).take m.2 := by
+        rw [← List.cons_append, List.take_append_of_le_length h2]
+      rw [e3, e1] at hrest
+      have hl : ((c :: t).drop m.2).length ≤ k := by
+        simp only [List.length_drop, List.length_cons]
+        simp only [List.length_cons] at hr
+        omega
+      exact ih _ hl (noNul_drop _ _ hnn) _ _ X hnc' hrest
+
+/-- **The converse.** If cutting `a | b` does not change the token sequence, the cut is a safe split. -/
+theorem safeSplit_complete (a b : Bytes) (ha : a ≠ []) (na : noNul a = true) (nb : noNul b = true)
+    (h : lexChunks [a, b] = lexWhole (a ++ b)) : safeSplit a b = true := by
+  by_cases hbe : b = []
+  · subst hbe; simp [safeSplit, na, nb]
+  · have hai : a.isEmpty = false := by cases a with | nil => exact absurd rfl ha | cons _ _ => rfl
+    rw [lexChunks_pair a b ha hbe na nb] at h
+    unfold lexWhole at h
+    cases hnc : noCross b a.length .initial true a with
+    | false => exact absurd h.symm (lex_append_conv b a.length a (Nat.le_refl _) na .initial true _ hnc)
+    | true =>
+      rw [lex_append b a.length a (Nat.le_refl _) ha .initial true hnc] at h
+      have h' := List.append_cancel_left h
+      simp only [safeSplit, na, nb, hai, hnc, Bool.true_and, Bool.not_false, Bool.or_eq_true, List.isEmpty_iff, bolOk, beq_iff_eq]
+      right
+      cases hE : endsWithNl a with
+      | true => left; rfl
+      | false =>
+        right
+        rw [hE] at h'
+        cases b with
+        | nil => exact absurd rfl hbe
+        | cons x u =>
+          obtain ⟨hx0, _⟩ := noNul_cons x u nb
+          generalize (lex .initial true a).2 = stA at h' ⊢
+          rw [lex_cons stA true x u, lex_cons stA false x u] at h'
+          have p1 := pick_pos (rulesOf stA) (rulesOf_hasAny stA) true x u
+          have p2 := pick_pos (rulesOf stA) (rulesOf_hasAny stA) false x u
+          have q1 : ¬ (pick (rulesOf stA) true (x :: u)).2 = 0 := by omega
+          have q2 : ¬ (pick (rulesOf stA) false (x :: u)).2 = 0 := by omega
+          simp only [q1, q2, if_false] at h'
+          apply tok_inj stA true false x u u hx0
+          rw [take_cons_pos _ x u (by omega), take_cons_pos _ x u (by omega)] at h' ⊢
+          obtain ⟨T1, hT1⟩ := emit_single (pick (rulesOf stA) true (x :: u)).1 x (u.take ((pick (rulesOf stA) true (x :: u)).2 - 1)) hx0
+          obtain ⟨T2, hT2⟩ := emit_single (pick (rulesOf stA) false (x :: u)).1 x (u.take ((pick (rulesOf stA) false (x :: u)).2 - 1)) hx0
+          rw [hT1, hT2] at h' ⊢
+          simp only [List.cons_append, List.nil_append, List.cons.injEq] at h'
+          rw [h'.1]
+
+theorem safeSplit_iff (a b : Bytes) (ha : a ≠ []) (na : noNul a = true) (nb : noNul b = true) :
+    lexChunks [a, b] = lexWhole (a ++ b) ↔ safeSplit a b = true :=
+  ⟨safeSplit_complete a b ha na nb, safeSplit_sound a b⟩
+
+
+/-! ## any number of cuts -/
+
+theorem lexChunksFrom_safe : ∀ (frags : List Bytes) (st : St), safeCutsFrom st frags = true →
+    lexChunksFrom st frags = (lex st true frags.flatten).1 := by
+  intro frags
+  induction frags with
+  | nil => intro st _; rfl
+  | cons a rest ih =>
+    intro st h
+    cases rest with
+    | nil =>
+      simp only [safeCutsFrom] at h
+      cases a with
+      | nil => rfl
+      | cons c t => simp only [lexChunksFrom, truncNul_noNul _ h, List.flatten_cons, List.flatten_nil, List.append_nil]
+    | cons b cs =>
+      simp only [safeCutsFrom, Bool.and_eq_true, Bool.not_eq_true', List.isEmpty_eq_false_iff] at h
+      obtain ⟨⟨⟨⟨na, hane⟩, hnc⟩, hbol⟩, hrec⟩ := h
+      have ih' := ih _ hrec
+      cases a with
+      | nil => exact absurd rfl hane
+      | cons c t =>
+        simp only [lexChunksFrom, truncNul_noNul _ na, ih']
+        rw [List.flatten_cons (l := c :: t)]
+        generalize (b :: cs).flatten = R at hnc hbol
+        rw [lex_append R (c :: t).length (c :: t) (Nat.le_refl _) hane st true hnc]
+        simp only [bolOkFrom, Bool.or_eq_true, beq_iff_eq] at hbol
+        rcases hbol with hnl | hpk
+        · rw [hnl]
+        · cases hE : endsWithNl (c :: t) with
+          | true => rfl
+          | false => rw [lex_bol_irrelevant _ _ hpk]
+
 end BlocV.Lex
